@@ -86,7 +86,7 @@ def check_case(image, answers, r, max_records=3):
     for engine, ring in RUNS:
         ringlen = HORIZON + 1 if ring else None
         dev = DEVICE(answers)
-        o = run_engine(path, engine, dev, ring=ringlen)
+        o = run_engine(path, engine, dev, ring=ringlen, timeout=1.0)
         nruns += 1
         diffs = compare(r, o, ringlen, image.w)
         if diffs and len(recs) < max_records:
